@@ -17,7 +17,7 @@ def main():
         sh('git -C /repo worktree add -q %s HEAD' % wt)
         rec = {'dir': d, 'change': x}
         try:
-            r = sh('git -C %s apply %s' % (wt, patch))
+            r = sh('git -C %s apply --3way %s && git -C %s reset -q' % (wt, patch, wt))      # 3-way: later fix: commits may have moved the context
             rec['applies'] = r.returncode == 0
             if not rec['applies']:
                 rec['apply_error'] = r.stdout[-300:]
